@@ -451,10 +451,10 @@ func EVAL(ctx context.Context, ast MalType, env EnvType) (res MalType, e error) 
 			ast = quasiquote(a1)
 		case "defmacro":
 			fn, e := EVAL(ctx, a2, env)
-			fn = fn.(MalFunc).SetMacro()
 			if e != nil {
 				return nil, e
 			}
+			fn = fn.(MalFunc).SetMacro()
 			return env.Set(a1.(Symbol), fn), nil
 		case "macroexpand":
 			return macroexpand(ctx, a1, env)
